@@ -324,7 +324,7 @@ def run(rep, tier, seed):
             for cl in CLAUSES:
                 if cl not in refuted:
                     continue
-                cands = [c for c in cases if not c["lit"][cl]]
+                cands = [c for c in cases if not c["lit"][cl] and c["path"][-1]["n"] == "Prescribed"]
                 if not cands:
                     raise tlc.MachineryError("TLC refutes %s but the emission instance has no refuting behaviour" % cl)
                 c = min(cands, key=lambda c: (len(c["path"]), len(json.dumps(c["path"]))))
@@ -494,7 +494,90 @@ def replay(payload):
     return 0
 
 
-def selftest():
-    from harness.c12_mutants import mutants  # noqa: F401  (kept next to the check; see below)
+def _src_mutant(owner, name, old, new, also=()):
+    """context manager factory: `owner.name` re-compiled from its own source with `old` replaced by `new`
+    (a realistic one-line change of the anchored code); `also` = other modules that imported the name."""
+    import contextlib
+    import inspect
+    import textwrap
 
-    raise NotImplementedError
+    from harness.selftest import patched
+
+    raw = owner.__dict__.get(name, getattr(owner, name))
+    kind = type(raw) if isinstance(raw, (staticmethod, classmethod)) else None
+    f = raw.__func__ if kind else raw
+    src = textwrap.dedent(inspect.getsource(f))
+    if old not in src:
+        raise tlc.MachineryError("mutant text %r not found in %s" % (old, name))
+    ns = {}
+    exec(compile(src.replace(old, new), "<c12-mutant:%s>" % name, "exec"), f.__globals__, ns)  # noqa: S102
+    g = ns[name]
+    g = kind(g) if kind else g
+
+    @contextlib.contextmanager
+    def cm():
+        with contextlib.ExitStack() as st:
+            st.enter_context(patched(owner, name, g))
+            for m in also:
+                st.enter_context(patched(m, name, g))
+            yield
+
+    return cm
+
+
+def selftest():
+    """In-process mutants of the anchored code; each must be detected by replay, the static cases or trace validation."""
+    global _SELFTEST
+    from harness.report import Report
+    from harness.selftest import run_mutants
+
+    armi_ready()
+    from armi.reactor.converters.axialExpansionChanger import assemblyAxialLinkage as L
+    from armi.reactor.converters.axialExpansionChanger import axialExpansionChanger as X
+    from armi.reactor.converters.axialExpansionChanger import expansionData as E
+
+    C, D, K = X.AxialExpansionChanger, E.ExpansionData, L.AssemblyAxialLinkage
+    _SELFTEST = True
+
+    def detect():
+        rep = Report("C12", "quick", 0)
+        run(rep, "quick", 0)
+        return [v["key"] for v in rep.violations if not v["key"].startswith("clause:")]
+
+    M = _src_mutant
+    mutants = [
+        ("dummy keeps its own height (assembly height not preserved)",
+         M(C, "axiallyExpandAssembly", "            else:\n                b.p.height = b.p.ztop - b.p.zbottom\n",
+           "            else:\n                b.p.ztop = b.p.zbottom + blockHeight\n                b.p.height = b.p.ztop - b.p.zbottom\n")),
+        ("block bottom not re-stacked on the block below", M(C, "axiallyExpandAssembly", "if ib > 0:", "if ib > 1:")),
+        ("number densities multiplied by the growth fraction", M(C, "axiallyExpandAssembly", "c.changeNDensByFactor(1.0 / growFrac)", "c.changeNDensByFactor(growFrac)")),
+        ("number densities changed for the target component only",
+         M(C, "axiallyExpandAssembly", "c.changeNDensByFactor(1.0 / growFrac)", "self.expansionData.isTargetComponent(c) and c.changeNDensByFactor(1.0 / growFrac)")),
+        ("component height grows from its own previous height", M(C, "axiallyExpandAssembly", "c.height = growFrac * blockHeight", "c.height = growFrac * getattr(c, 'height', blockHeight)")),
+        ("linked component bottom taken from the block below, not the linked component",
+         M(C, "axiallyExpandAssembly", "c.zbottom = self.linked.linkedComponents[c].lower.ztop", "c.zbottom = self.linked.linkedBlocks[b].lower.p.ztop")),
+        ("grid bounds not updated", M(C, "axiallyExpandAssembly", "self.linked.a.spatialGrid._bounds = tuple(bounds)", "pass")),
+        ("block boundary follows the last solid component, not the target", M(C, "axiallyExpandAssembly", "if self.expansionData.isTargetComponent(c):", "if True:")),
+        ("negative block height accepted", M(X, "_checkBlockHeight", "if b.getHeight() < 0.0:", "if b.getHeight() < -1.0e9:")),
+        ("link direction reversed (upper stored as lower)", M(K, "_getLinkedComponents", "AxialLink(lowerC, upperC)", "AxialLink(upperC, lowerC)")),
+        ("touching cross-sections count as linked (< becomes <=)", M(L, "areAxiallyLinked", "return biggerID < smallerOD", "return biggerID <= smallerOD")),
+        ("multiplicity ignored by the link test", M(L, "areAxiallyLinked", 'and (componentA.getDimension("mult") == componentB.getDimension("mult"))', "")),
+        ("two link candidates silently resolved to the first", M(K, "_findComponentLinkedTo", "            else:\n                errMsg", "            elif False:\n                errMsg")),
+        ("zero expansion factor accepted", M(D, "setExpansionFactors", "if exp <= 0.0:", "if exp < 0.0:")),
+        ("unlisted components default to the last given factor", M(D, "getExpansionFactor", "self._expansionFactors.get(c, 1.0)",
+                                                                 "self._expansionFactors.get(c, list(self._expansionFactors.values())[-1] if self._expansionFactors else 1.0)")),
+        ("block temperature = last grid point instead of the mean", M(D, "updateComponentTempsBy1DTempField", "blockAveTemp = mean(tmpMapping)", "blockAveTemp = tmpMapping[-1]")),
+        ("temperature window excludes the block top side", M(D, "updateComponentTempsBy1DTempField", "if b.p.zbottom <= z <= b.p.ztop:", "if b.p.zbottom <= z <= b.p.ztop - 1.0:")),
+        ("thermal factor always relative to the input temperature", M(D, "_perComponentThermalExpansionFactors", "if self.expandFromTinputToThot:", "if True:")),
+        ("aclp blocks no longer use the clad as target", M(D, "_setTargetComponents", "b.hasFlags(Flags.PLENUM) or b.hasFlags(Flags.ACLP)", "b.hasFlags(Flags.PLENUM)")),
+        ("preferred target flags reordered (poison before control)", lambda: __import__("harness.selftest", fromlist=["patched"]).patched(
+            E, "TARGET_FLAGS_IN_PREFERRED_ORDER", [E.Flags.FUEL, E.Flags.POISON, E.Flags.CONTROL, E.Flags.SHIELD, E.Flags.SLUG])),
+        ("single-solid fallback removed", M(D, "determineTargetComponent", "if len(solidMaterials) == 1:", "if False:")),
+        ("determined target not persisted on the block", M(D, "_setExpansionTarget", "b.p.axialExpTargetComponent = target.name", "pass")),
+        ("explicit target ignored", M(D, "_setTargetComponents", "if b.p.axialExpTargetComponent:", "if False:")),
+        ("fluids expanded like solids", M(E, "iterSolidComponents", "filter(lambda c: not isinstance(c.material, material.Fluid), b)", "iter(b)", also=(X, L))),
+    ]
+    try:
+        return run_mutants(mutants, detect)
+    finally:
+        _SELFTEST = False
